@@ -574,7 +574,7 @@ def describe(case):
 
 def extra(ctx, tier, shard):
     """round trips + exhaustive crash offsets, split over shards by k"""
-    nshards = max(1, budget(tier)["shards"])
+    nshards = max(1, getattr(ctx, "nshards", 1))
     sizes = (5,) if tier == "quick" else SIZES
     exhaustive = True
     for n in SIZES:
